@@ -797,27 +797,21 @@ func runFF(o *Opts) *Summary {
 			g := run[0]
 			// In every other of these, the only reachable server is a node that fell
 			// behind: its anchor lies behind g's own last block (a reset backwards).
+			// babble only fast-forwards a node that is behind: everybody pulls all of g's
+			// events, then g stays silent while the others go on.  (Sending back a node
+			// that is ahead of its peers - or serving it from a peer behind its own tip -
+			// makes it forget events nobody else holds and re-use their heights.)
 			var lag *NNode
-			// (not over a Badger store: the database keeps the events of before the reset
-			// and serves them again by hash and by index, so a node reset *behind its own
-			// tip* re-admits children of events its hashgraph no longer holds and forks
-			// its own chain - a situation babble does not get into by itself: only a
-			// node that is behind fast-forwards)
-			if t%4 == 0 && len(run) >= 3 && o.Store != "badger" {
-				lag = run[len(run)-1]
-				others := []*NNode{}
-				for _, nd := range all {
-					if nd != lag {
-						others = append(others, nd)
-					}
-				}
-				gossip(o.Steps/3, others)
-				for _, nd := range all {
-					if nd != lag && nd != g {
-						vn.down[nd.num] = true
+			others := []*NNode{}
+			for _, nd := range all {
+				if nd != g {
+					others = append(others, nd)
+					if nd.State() == "Babbling" {
+						vn.Pull(nd, g, false)
 					}
 				}
 			}
+			gossip(o.Steps/3, others)
 			g.node.VTransition(_state.CatchingUp)
 			w.Emit(g.num, "StateChange", map[string]interface{}{"from": "Babbling", "to": "CatchingUp", "why": "driver"}, nil)
 			for q := 0; q < 4; q++ {
